@@ -98,6 +98,21 @@ CHECKS["C19"] = dict(
     technique="Lean 4 theorems on the CLI decision table + translator for exit-code constants + in-process/subprocess correspondence",
 )
 
+CHECKS["C17"] = dict(
+    category="proof",
+    text="Tree serialization is modelled as a codec over JSON values (to_json / from_json incl. every private cache field) and an "
+    "object-state machine of cache computations (k_paths, concrete k_paths, str/len/hash/structural_hash/is_open) and serializations. "
+    "Theorems: decode(encode t) = t with the unserializable k-path caches emptied (structure, node identities, labels preserved); the "
+    "serialized form is independent of computed k-paths anywhere in the tree; every op succeeds in every state; serialization never changes "
+    "the live object; no history changes structure/identities/string; after ANY history a pickle unpickles to the same structure "
+    "(pickle_after_history). Tie: histories on real trees with complete private-state snapshots of every node before/after each op compared "
+    "with the model, plus property-level checks; SMT formula pickles over adversarial literals and CLI JSON round trips at property level.",
+    design_ref="DESIGN.md section 7 C17",
+    note="json/pickle/zlib trusted. SMT-formula pickling and the CLI JSON path are checked on the real objects only (Z3's literal "
+    "printing/reading is not modelled): for those clauses the assurance is exploration of generated literals, not a theorem.",
+    technique="Lean 4 theorems (codec round trip, state-machine invariants over all histories) + history correspondence with private-state snapshots",
+)
+
 NOT_APPLICABLE = {
     "C22": "reproducibility across fresh processes depends on hash randomisation, Z3 seeds/timeouts and wall-clock time; a functional Lean model would prove determinism vacuously and no executable model can exhibit the failure (DESIGN.md section 8)",
 }
